@@ -139,7 +139,13 @@ class ShuffleBase(Expr):
                 MemoryUsage,
             ),
         ):
-            return type(parent)(self.frame, *parent.operands[1:])
+            result = type(parent)(self.frame, *parent.operands[1:])
+            if result.npartitions != parent.npartitions:
+                # e.g. drop_duplicates(split_out=True) keeps the partition count
+                # of its input: dropping a shuffle that changes the number of
+                # partitions would change the partitioning of the result
+                return
+            return result
 
     def _layer(self):
         raise NotImplementedError(
